@@ -42,6 +42,9 @@ type Solver struct {
 	SolveTime time.Duration
 	Errors    int
 	dump      *os.File
+
+	rec     *strings.Builder // when non-nil: the session text of the current path
+	recAns  []string         // and the sat/unsat/unknown answers received
 }
 
 func NewSolver(kind string, timeoutMs int) (*Solver, error) {
@@ -92,6 +95,9 @@ func (s *Solver) Close() {
 func (s *Solver) send(str string) {
 	if s.dump != nil {
 		s.dump.WriteString(str)
+	}
+	if s.rec != nil {
+		s.rec.WriteString(str)
 	}
 	io.WriteString(s.in, str)
 }
@@ -201,6 +207,9 @@ func (s *Solver) Check() SatResult {
 		break
 	}
 	s.SolveTime += time.Since(t0)
+	if s.rec != nil {
+		s.recAns = append(s.recAns, res.String())
+	}
 	switch res {
 	case Sat:
 		s.NSat++
@@ -301,4 +310,52 @@ func (s *Solver) Model(vars []*Term) map[*Term]uint64 {
 		i++
 	}
 	return m
+}
+
+// StartRecording / StopRecording capture one path's solver session as a
+// self-contained SMT-LIB2 script (all declarations of a path live inside its
+// push scope) together with the answers z3 gave.
+func (s *Solver) StartRecording() {
+	s.rec = &strings.Builder{}
+	s.recAns = nil
+}
+
+func (s *Solver) StopRecording() (string, []string) {
+	if s.rec == nil {
+		return "", nil
+	}
+	txt, ans := s.rec.String(), s.recAns
+	s.rec, s.recAns = nil, nil
+	return txt, ans
+}
+
+// crossCheck replays a recorded session on another solver binary and returns its answers.
+func crossCheck(kind, script string, timeoutMs int) ([]string, error) {
+	var cmd *exec.Cmd
+	switch kind {
+	case "z3-new":
+		cmd = exec.Command("z3-new", "-in", fmt.Sprintf("-t:%d", timeoutMs))
+	case "cvc5":
+		cmd = exec.Command("cvc5", "--incremental", "--produce-models", "--lang=smt2", fmt.Sprintf("--tlimit-per=%d", timeoutMs))
+		script = "(set-logic QF_BV)\n" + script
+	default:
+		return nil, fmt.Errorf("unknown solver %s", kind)
+	}
+	cmd.Stdin = strings.NewReader(script + "(exit)\n")
+	out, err := cmd.Output()
+	if err != nil && len(out) == 0 {
+		return nil, err
+	}
+	var ans []string
+	for _, l := range strings.Split(string(out), "\n") {
+		l = strings.TrimSpace(l)
+		switch l {
+		case "sat", "unsat", "unknown", "timeout":
+			ans = append(ans, l)
+		}
+		if strings.HasPrefix(l, "(error") {
+			ans = append(ans, "error")
+		}
+	}
+	return ans, nil
 }
